@@ -243,7 +243,8 @@ class Check:
       self.cov['samples'].append(s)
 
   def tie_broken(self, kind, name, detail=''):
-    self.broken.append({'kind': kind, 'name': name, 'detail': str(detail)[-3000:]})
+    self.broken.append({'kind': kind, 'name': name,
+                        'detail': detail if isinstance(detail, (dict, list)) else str(detail)[-3000:]})
 
   def fail(self, klass, what, replay):
     """A concrete failure of the property on the implementation."""
